@@ -39,6 +39,12 @@ CHECKS = {
   technique="model-based property testing: exhaustive schedule enumeration with gaps {0,1,T-1,T,T+1} + proptest-generated histories with stacked one-shots (incl. > 16), compared with a reference model of the four one-shot end variants",
   text="All four end variants, one-shot of key / output chord / layer-while-held, timeouts {5,30}, rapid-event-delay {0,5}: every toggle schedule of <= N events (4-5) over one or two one-shot keys and two plain keys that differ on the one-shot layer is compared, with full timestamped equality, against the reference model (next-key-only effect, expiry at exactly T, stacking and restart, held one-shot = plain key, pcancel, overflow of the 16-entry table).",
   note="Trusts the reference model (Appendix A.3). One end-variant per configuration. Cases reaching kanata's 12-active-layer capacity or >= 32 pending events are discarded."),
+ "C07": dict(
+  cat="exploration", ref="DESIGN.md §4 C07 (a)",
+  technique="differential (paired) execution on generated configurations and histories: the processing loop's control flow is emulated on a virtual clock around the real can-block decision, once blocking and once ticking every millisecond; oracle = identical observable output with identical virtual timestamps; proptest + ddmin shrinking",
+  text="Relates two executions of the real state machine for every generated (config, history): whenever can_block_update_idle_waiting says the loop may sleep, the blocking run jumps to the next input event without ticking while the reference run keeps ticking; all OS-observable output (key/button state transitions, unicode, mouse, scroll, raw codes) must agree event for event and millisecond for millisecond, including what a further tick would still emit after the last event.",
+  note="Virtual clock: the nanosecond remainder carry of handle_time_ticks and real thread scheduling are not exercised (DESIGN.md §8). Two events in the same millisecond are excluded by construction (inherent +-1 tick jitter of the real loop). Four is_idle defects found by this check were repaired with fix: commits."),
+
  "C17": dict(
   cat="exploration", ref="DESIGN.md §4 C17, Appendix A.4/D",
   technique="model-based property testing: exhaustive schedule enumeration over the tap-dance key and one other key with gaps {0,1,T-1,T,T+1} + proptest-generated longer histories, compared with a reference model of lazy and eager tap-dance",
